@@ -103,7 +103,7 @@ def run_batch(run, module, mats, rads, name, invariants, action_constraints, wor
         elif line.startswith('"INFO '):
             o = json.loads(json.loads(line)[5:])
             info[o["m"] - 1] = o
-        elif line.startswith('"CFG ') or line.startswith('"TRI ') or line.startswith('"DGC ') or line.startswith('"LBT '):
+        elif line.startswith('"CFG ') or line.startswith('"TRI ') or line.startswith('"DGC ') or line.startswith('"LBT ') or line.startswith('"VAR '):
             s = json.loads(line)
             tables[s[:3]] = json.loads(s[4:])
     edges = [[] for _ in mats]
@@ -120,11 +120,25 @@ def run_batch(run, module, mats, rads, name, invariants, action_constraints, wor
 # ----------------------------------------------------------------------------------------
 DIAGRAM_ALPHA = "pqrtu"          # single-letter names for the diagram route
 
+# names of the diagram route by naming style and by the order in which the names FIRST APPEAR in the list of
+# edges: alphabetical, reverse alphabetical, neither.  "Each generator can be any hashable object": the style
+# "int" uses small integers (1..n, n-1..0, 1..n-1,0), which coincide with the labels 0..n-1 the automaton
+# construction uses internally.
+NAME_ORDERS = ["sorted", "reversed", "mixed"]
+_DIAGRAM_NAMES = {
+    ("alpha", "sorted"): list("pqrtu"), ("alpha", "reversed"): list("utrqp"), ("alpha", "mixed"): list("rtpuq"),
+    ("alphanum", "sorted"): ["x0", "x1", "x2", "x3", "x4"], ("alphanum", "reversed"): ["x4", "x3", "x2", "x1", "x0"],
+    ("alphanum", "mixed"): ["x2", "x0", "x3", "x1", "x4"],
+}
 
-def expected_names(rank, route, style):
+
+def expected_names(rank, route, style, order="sorted"):
     if route == "matrix":
         return list("abcdefgh"[:rank]) if style == "alpha" else ["s%d" % i for i in range(rank)]
-    return list(DIAGRAM_ALPHA[:rank]) if style == "alpha" else ["x%d" % i for i in range(rank)]
+    if style == "int":
+        return {"sorted": list(range(1, rank + 1)), "reversed": list(range(rank - 1, -1, -1)),
+                "mixed": [(i + 1) % rank for i in range(rank)]}[order]
+    return _DIAGRAM_NAMES[(style, order)][:rank]
 
 
 def lib_matrix(M, inf):
@@ -170,37 +184,72 @@ def build_group(M, route="matrix", style="alpha", inf="zero", container="list", 
     return build_group_ex(M, route, style, inf, container, labels)[:2]
 
 
-def build_group_ex(M, route="matrix", style="alpha", inf="zero", container="list", labels="int"):
-    """(group, names, unchanged): `unchanged()` returns None, or a description of how the caller's own
-    input (the array / the list of edges handed to the constructor) differs from what was handed over."""
+def build_group_ex(M, route="matrix", style="alpha", inf="zero", container="list", labels="int", order="sorted", history="query"):
+    return build_group_full(M, route, style, inf, container, labels, order, history)[:3]
+
+
+def other_labels(LM):
+    """a different well formed Coxeter matrix of the same size (what a caller sweeping over matrices writes next)"""
+    n = len(LM)
+    return [[1 if i == j else (3 if LM[i][j] == 2 else 2) for j in range(n)] for i in range(n)]
+
+
+def build_group_full(M, route="matrix", style="alpha", inf="zero", container="list", labels="int", order="sorted", history="query"):
+    """(group, names, unchanged, consistent).
+    history "edit_input_then_query": after the constructor returned, the caller's own array / list of edges is
+    overwritten in place with the labels of another Coxeter matrix; the group was determined at construction.
+    unchanged(): None, or how the caller's input differs from what the caller last wrote into it.
+    consistent(): None, or how the group's coxeter_matrix / ordered_gens disagree with the labels handed over:
+    coxeter_matrix[i][j] must be the label of the pair (ordered_gens[i], ordered_gens[j])."""
     from geometry_tools import coxeter
     rank = len(M)
-    names = expected_names(rank, route, style)
+    names = expected_names(rank, route, style, order)
     LM = lib_matrix(M, inf)
+    OM = other_labels(LM)
     conv = float if labels == "float" else int
     if route == "matrix":
         arr = np.array(LM, dtype=np.float64 if labels == "float" else np.int64)
-        keep = arr.copy()
         G = coxeter.CoxeterGroup(matrix=arr, generator_style=style)
+        if history == "edit_input_then_query":
+            arr[...] = np.array(OM)
+        keep = arr.copy()
 
         def unchanged():
             if arr.dtype != keep.dtype or not np.array_equal(arr, keep):
-                return "the caller's matrix is now %r, was %r" % (arr.tolist(), keep.tolist())
+                return "the caller's matrix is now %r, the caller left it as %r" % (arr.tolist(), keep.tolist())
     else:
-        diagram = []
-        for k, (i, j) in enumerate(pairs(rank)):
-            # every pair is listed (label 2 included); all but the first edge are written reversed
-            if k == 0:
-                diagram.append((names[i], names[j], conv(LM[i][j])))
-            else:
-                diagram.append((names[j], names[i], conv(LM[i][j])))
+        def edges(L):
+            out = []
+            for k, (i, j) in enumerate(pairs(rank)):
+                # every pair is listed (label 2 included); all but the first edge are written reversed
+                out.append((names[i], names[j], conv(L[i][j])) if k == 0 else (names[j], names[i], conv(L[i][j])))
+            return out
+        diagram = edges(LM)
+        handed = pack_diagram(diagram, container)
+        G = coxeter.CoxeterGroup(diagram=handed)
+        if history == "edit_input_then_query" and container == "list":
+            handed[:] = edges(OM)
+            diagram = handed
         keep = list(diagram)
-        G = coxeter.CoxeterGroup(diagram=pack_diagram(diagram, container))
 
         def unchanged():
             if diagram != keep:
-                return "the caller's diagram is now %r, was %r" % (diagram, keep)
-    return G, names, unchanged
+                return "the caller's diagram is now %r, the caller left it as %r" % (diagram, keep)
+
+    def consistent():
+        try:
+            og = list(G.ordered_gens)
+            cm = np.asarray(G.coxeter_matrix)
+            if sorted(map(repr, og)) != sorted(map(repr, names)) or cm.shape != (rank, rank):
+                return "generators %r, coxeter_matrix of shape %r; handed over: generators %r" % (og, cm.shape, names)
+            pos = {g: k for k, g in enumerate(names)}
+            want = [[LM[pos[a]][pos[b]] for b in og] for a in og]
+            if not np.array_equal(cm, np.array(want)):
+                return ("coxeter_matrix %r is not the matrix of the labels handed over for the generators %r (that is %r)%s"
+                        % (cm.tolist(), og, want, "; the caller's input was edited after construction" if history != "query" else ""))
+        except Exception as e:
+            return "%s: %s" % (type(e).__name__, e)
+    return G, names, unchanged, consistent
 
 
 def word_names(w, names):
